@@ -469,3 +469,5 @@ func TestVerifC07Jose(t *testing.T) {
 	}
 	vC07Drive(t, decs, nil, fams, 400, 5000)
 }
+
+func FuzzVerifC07Jose(f *testing.F) { vC07FuzzTarget(f, TestVerifC07Jose) }
